@@ -31,7 +31,14 @@ import (
 	"verif/instr"
 )
 
-const verifDir = "/verif"
+// verifDir is /verif; VERIF_DIR points a background validation run at a snapshot copy of it (and
+// --repo / VERIF_REPO at a clone of the repository) so that work in /verif and /repo goes on.
+var verifDir = func() string {
+	if d := os.Getenv("VERIF_DIR"); d != "" {
+		return d
+	}
+	return "/verif"
+}()
 
 var repoDir = "/repo"
 
@@ -39,7 +46,7 @@ var repoDir = "/repo"
 var mainProps = map[string]bool{"C09": true, "C10": true, "C11": true}
 
 // properties that additionally have units in the package-main worker (registered there under this name)
-var alsoMain = map[string]string{"C07": "C07main", "C01": "C01main", "C06": "C06main"}
+var alsoMain = map[string]string{"C07": "C07main", "C01": "C01main", "C06": "C06main", "C03": "C03main"}
 
 type knownEntry struct {
 	Status   string `json:"status"` // "known" | "fixed"
@@ -204,7 +211,11 @@ func main() {
 	shards := fs.Int("shards", 16, "worker processes")
 	budget := fs.Duration("budget", 0, "internal wall-clock deadline per worker (default: 80s quick, 12m thorough)")
 	verbose := fs.Bool("v", false, "verbose")
-	repo := fs.String("repo", "/repo", "repository under verification")
+	defRepo := "/repo"
+	if r := os.Getenv("VERIF_REPO"); r != "" {
+		defRepo = r
+	}
+	repo := fs.String("repo", defRepo, "repository under verification")
 	fs.Parse(os.Args[2:])
 	repoDir = *repo
 	seed := uint64(1)
